@@ -98,6 +98,7 @@ impl Board {
     }
 
     fn parse_board(board: &mut Board, s: &str) -> Result<(), ()> {
+        let mut ranks = 0;
         for (rank, row) in s.rsplit('/').enumerate() {
             let rank = Rank::try_index(rank).ok_or(())?;
             let mut file = 0;
@@ -122,6 +123,10 @@ impl Board {
             if file != File::NUM {
                 return Err(());
             }
+            ranks += 1;
+        }
+        if ranks != Rank::NUM {
+            return Err(());
         }
         Ok(())
     }
